@@ -7,7 +7,7 @@ From Coq Require Import String.
 From Coq Require Import List NArith Bool.
 From Coq.Strings Require Import Byte.
 From Model Require Import Bytes Frame Response Conn Compression.
-From Proofs Require Import ApiFacts CompressionFacts NegotiationFacts NegotiationTie.
+From Proofs Require Import ApiFacts CompressionFacts NegotiationFacts NegotiationTie DeliveryFacts DeliveryZ.
 Import ListNotations.
 
 (* for every message history with per-message compress flags, both no_context_takeover settings, and every way of
@@ -131,3 +131,20 @@ Theorem C06_control_frames_never_compressed : forall c a op p,
    k_tr c' = TWriteFail (build op false (next_key c) p) :: k_tr c).
 Proof. exact control_frames_never_compressed. Qed.
 Print Assumptions C06_control_frames_never_compressed.
+
+(* ---------- the whole stream (DeliveryZ.v, with C01) ---------- *)
+(* On a connection that negotiated permessage-deflate, for every conforming frame list (RSV1 on the first fragment of a
+   compressed message only, never on a control frame; any fragmentation; Pings and Pongs anywhere; any length form) cut into
+   reads in any way, and any application that only sends: the inflater is called once per compressed message, in arrival
+   order -- the oracle tape is consumed by exactly the compressed messages (tape' is what the reference reading leaves) --
+   a message without RSV1 never reaches it, the delivered messages are the reference reading's, and the negotiated
+   configuration is untouched *)
+Theorem C06_inflater_results_in_order : forall cf app, Proofs.DeliveryFacts.benign app -> zpos (c_ping_timeout cf) = None ->
+  forall d fs lfs ds c open tape ms open' tape',
+  Proofs.DeliveryZ.idle_z d c open tape -> Proofs.DeliveryFacts.data_head open -> Forall Proofs.DeliveryZ.zframe fs ->
+  Proofs.DeliveryFacts.forms_ok fs lfs ->
+  Proofs.DeliveryZ.ref_messages_z open tape fs = Some (ms, open', tape') -> concat ds = Proofs.DeliveryFacts.encode_all fs lfs ->
+  exists c', Proofs.ConnFacts.feed_chunks cf app c ds = (c', SOk) /\ k_ztape c' = tape' /\ k_deflate c' = Some d /\
+             Proofs.DeliveryFacts.msg_events (k_tr c') = rev (map Proofs.DeliveryFacts.ev_of ms) ++ Proofs.DeliveryFacts.msg_events (k_tr c).
+Proof. exact Proofs.DeliveryZ.inflater_results_in_order. Qed.
+Print Assumptions C06_inflater_results_in_order.
